@@ -17,7 +17,7 @@ import (
 
 func init() {
 	Registry["C12"] = Set{
-		Explanation: "Decides structural clauses of remote delivery integrity on the raw frame protocol: R1 for every proto* message constant the writer's field map (offset, width, role pid/alias/ref word) agrees with the reader arm's field map, the header size allocated by the writer equals the offset at which the reader starts decoding the payload, and every identifier word the writer stores is read back; R5 an identifier the reader rebuilds with the peer's name/creation is one the writer owns (not guarded against the peer's creation) and vice versa, so 'from' is the true sender and 'to' the addressee; R2 the only write to a pooled link is in send, after the peer's max-message-size test which comes after compression; every frame builder ends in send; R3 no read of a receive buffer after it was released, no double release (ownership typestate over SSA); R4 each important-delivery acknowledgement carries the reference read from that frame, the error of that Route* call, and is addressed to the frame's sender; R6 the frame cutter uses one length for the frame and the tail. Added while probing: R1h every frame writer writes the complete header into the buffer it stamps (magic, version, its own length at [2:6], selector at 6, type at 7); R1e all integer accesses in net/proto and net/handshake are big-endian; R7 the compression envelope (type id, length prefix, offsets) agrees between send, the receive worker and each Compress/Decompress pair; R8 the stream reader appends at the buffer's logical end (offset sampled before the growth helper) and the new length is offset + n; R9 no frame is stranded in a receive queue (producer pushes before trying the lock; the worker re-checks after Unlock). R10 lock pairing — in every function that touches the link writer's (flusher) lock a forward data flow over (held read/write, unlock deferred) shows: no return while the lock is held without a deferred unlock, no unlock (explicit or deferred) of a lock that is not held or of the other kind, no second lock (a leaked lock blocks every later send on that link for ever, an unlock of an unlocked mutex is a fatal error that takes the node down). R3x pooled objects across calls — when a function may release a pooled buffer it received as a parameter (directly, through a callee resolved statically or by the VTA call graph, or deferred), no caller releases or re-dispatches the same object on a path compatible with the callee's releasing path; paths are correlated through the nil-ness of the callee's error result (a double release hands one object to two later users: frames of unrelated connections overwrite each other, a request is presented twice or answered with another request's reference). R3i = C02.D11 for buffers (released once inside a function, through phi nodes).",
+		Explanation: "Decides structural clauses of remote delivery integrity on the raw frame protocol: R1 for every proto* message constant the writer's field map (offset, width, role pid/alias/ref word) agrees with the reader arm's field map, the header size allocated by the writer equals the offset at which the reader starts decoding the payload, and every identifier word the writer stores is read back; R5 an identifier the reader rebuilds with the peer's name/creation is one the writer owns (not guarded against the peer's creation) and vice versa, so 'from' is the true sender and 'to' the addressee; R2 the only write to a pooled link is in send, after the peer's max-message-size test which comes after compression; every frame builder ends in send; R3 no read of a receive buffer after it was released, no double release (ownership typestate over SSA); R4 each important-delivery acknowledgement carries the reference read from that frame, the error of that Route* call, and is addressed to the frame's sender; R6 the frame cutter uses one length for the frame and the tail. Added while probing: R1h every frame writer writes the complete header into the buffer it stamps (magic, version, its own length at [2:6], selector at 6, type at 7); R1e all integer accesses in net/proto and net/handshake are big-endian; R7 the compression envelope (type id, length prefix, offsets) agrees between send, the receive worker and each Compress/Decompress pair; R8 the stream reader appends at the buffer's logical end (offset sampled before the growth helper) and the new length is offset + n; R9 no frame is stranded in a receive queue (producer pushes before trying the lock; the worker re-checks after Unlock). R10 lock pairing — in every function that touches the link writer's (flusher) lock a forward data flow over (held read/write, unlock deferred) shows: no return while the lock is held without a deferred unlock, no unlock (explicit or deferred) of a lock that is not held or of the other kind, no second lock (a leaked lock blocks every later send on that link for ever, an unlock of an unlocked mutex is a fatal error that takes the node down). R3x pooled objects across calls — when a function may release a pooled buffer it received as a parameter (directly, through a callee resolved statically or by the VTA call graph, or deferred), no caller releases or re-dispatches the same object on a path compatible with the callee's releasing path; paths are correlated through the nil-ness of the callee's error result (a double release hands one object to two later users: frames of unrelated connections overwrite each other, a request is presented twice or answered with another request's reference). R3i = C02.D11 for buffers (released once inside a function, through phi nodes). R11 every successful return of the link writer after bytes went into its buffer has a flush pending or arms the flush timer. R12 in every frame writer that applies the atom mapping to a name the atom-cache lookup uses the mapped name. R13 wherever a pool item's link is (re)assigned its writer is renewed for that very link in the same straight-line code.",
 		NotDecided: []string{
 			"TCP segmentation / reassembly over every cut of the stream (only the append position and the cut at the declared length are decided)",
 			"compression round trip, payload equality (see C11 clauses)",
@@ -47,6 +47,9 @@ func runC12(p *load.Program, r *core.Report) {
 		r.Unk("C12.anchors", "C12.anchors|layouts", "", "", "frame writers and the frame handler resolve", fmt.Sprintf("writers=%d reader arms=%d", len(writers), len(readers)))
 		return
 	}
+	c12MappedNameCached(p, r)
+	c12FlushArmed(p, r)
+	c12WriterGoesWithLink(p, r)
 	pooledIntra(p, r, "C12.R3i buffer-released-once", "C12.R3i", 12, "buffer", func(*ssa.Function) bool { return true })
 	pooledRelease(p, r, "C12.R3x no-double-release-across-calls", "C12.R3x", 15, "buffer", func(*ssa.Function) bool { return true })
 	lockPairing(p, r, "C12.R10 link-writer-lock-paired", "C12.R10", 3, func(o string) bool { return o == "lib.flusher" })
@@ -1135,3 +1138,275 @@ func derivesConv(v ssa.Value, derives func(ssa.Value) bool) bool {
 }
 
 var _ = types.Typ
+
+// c12MappedNameCached: R12 — a frame names its addressee either by text or by the id the atom has in
+// the connection's atom cache; both must denote the SAME atom: the name after the connection's atom
+// mapping was applied. In every frame writer that applies the mapping to a name, the key of the
+// atom-cache lookup is the mapped name (the value that merges the original and the mapped atom), as
+// is the text that is written. A lookup with the unmapped name sends the id of another atom: the
+// peer hands the request to the process registered under the unmapped name.
+func c12MappedNameCached(p *load.Program, r *core.Report) {
+	rule := "C12.R12 cached-id-of-the-mapped-name"
+	r.Floor(rule, 5)
+	for _, f := range funcsOfPkgs(p, "net/proto") {
+		if f.Parent() != nil {
+			continue
+		}
+		// mapped names: phis that merge a raw atom with the (type-asserted) result of AtomMapping.Load
+		mapLoads := map[ssa.Value]bool{} // results v of AtomMapping.Load
+		var cacheLoads []*ssa.Call
+		eachInstr(f, func(in ssa.Instruction) {
+			c, ok := in.(*ssa.Call)
+			if !ok {
+				return
+			}
+			if m, okm := syncMapCall(c.Common()); !okm || m != "Load" {
+				return
+			}
+			_, path, okp := fieldPath(c.Common().Args[0])
+			if !okp || len(path) == 0 {
+				return
+			}
+			switch path[len(path)-1] {
+			case "AtomMapping":
+				mapLoads[c] = true
+			case "AtomCache":
+				cacheLoads = append(cacheLoads, c)
+			}
+		})
+		if len(mapLoads) == 0 || len(cacheLoads) == 0 {
+			continue
+		}
+		fromMapping := func(v ssa.Value) bool {
+			// v = typeassert(extract(load, 0))
+			if ta, ok := v.(*ssa.TypeAssert); ok {
+				v = ta.X
+			}
+			if ex, ok := v.(*ssa.Extract); ok {
+				return mapLoads[ex.Tuple]
+			}
+			return false
+		}
+		var mapped []*ssa.Phi
+		eachInstr(f, func(in ssa.Instruction) {
+			ph, ok := in.(*ssa.Phi)
+			if !ok {
+				return
+			}
+			for _, e := range ph.Edges {
+				if fromMapping(e) {
+					mapped = append(mapped, ph)
+					return
+				}
+			}
+		})
+		derivesFromMapped := func(v ssa.Value) bool {
+			v = stripIface(v)
+			seen := map[ssa.Value]bool{}
+			var w func(x ssa.Value) bool
+			w = func(x ssa.Value) bool {
+				if seen[x] {
+					return false
+				}
+				seen[x] = true
+				for _, m := range mapped {
+					if x == ssa.Value(m) {
+						return true
+					}
+				}
+				if ph, ok := x.(*ssa.Phi); ok {
+					for _, e := range ph.Edges {
+						if w(e) {
+							return true
+						}
+					}
+				}
+				return false
+			}
+			return w(v)
+		}
+		for i, c := range cacheLoads {
+			fn := fname(f)
+			key := fmt.Sprintf("C12.R12|%s|cache-lookup#%d", fn, i+1)
+			inst := "the atom-cache id written into the frame is the id of the name after atom mapping"
+			k := c.Common().Args[1]
+			// which raw atom does this lookup concern? only lookups of a name that has a mapped version
+			raw := stripIface(k)
+			concerns := derivesFromMapped(k)
+			if !concerns {
+				for _, m := range mapped {
+					for _, e := range m.Edges {
+						if sameTypeValue(e, raw) {
+							concerns = true
+						}
+					}
+				}
+				if !concerns {
+					continue // a lookup of some other atom (no mapping is applied to it in this writer)
+				}
+				r.Bad(rule, key, fn, p.Pos(c.Pos()), inst, "the lookup uses the unmapped name although the writer maps it: the frame carries the cache id of another atom and the peer addresses the process registered under the unmapped name")
+				continue
+			}
+			r.OK(rule, key, fn, p.Pos(c.Pos()), inst, "key is the mapped name")
+		}
+	}
+}
+
+// c12FlushArmed: R11 — the link writer buffers what it is given and flushes on a timer. Every
+// successful return of its Write either found a flush already pending or has armed the timer:
+// otherwise the bytes stay in the buffer until some later frame goes over the same link ("sent"
+// messages that are not delivered).
+func c12FlushArmed(p *load.Program, r *core.Report) {
+	rule := "C12.R11 buffered-bytes-get-flushed"
+	r.Floor(rule, 1)
+	f := p.Func("lib", "flusher", "Write")
+	if f == nil {
+		r.Unk(rule, "C12.R11|flusher.Write", "", "", "the link writer is found", "lib.(*flusher).Write not found")
+		return
+	}
+	fn := fname(f)
+	key := "C12.R11|" + fn
+	inst := "after bytes were handed to the buffered writer, a successful return has a flush pending or arms the timer"
+	var pendingTrue []Edge
+	eachInstr(f, func(in ssa.Instruction) {
+		ld, ok := in.(*ssa.UnOp)
+		if !ok || ld.Op != token.MUL {
+			return
+		}
+		if _, fl := fieldOwner(ld.X); fl == "pending" {
+			t, _, _ := boolEdges(ld)
+			pendingTrue = append(pendingTrue, t...)
+		}
+	})
+	isArm := func(in ssa.Instruction) bool {
+		cc := callCommon(in)
+		if cc == nil {
+			return false
+		}
+		sf := staticCallee(cc)
+		return sf != nil && sf.Name() == "Reset" && sf.Pkg != nil && sf.Pkg.Pkg.Path() == "time"
+	}
+	var writes []ssa.Instruction
+	eachInstr(f, func(in ssa.Instruction) {
+		cc := callCommon(in)
+		if cc == nil {
+			return
+		}
+		if sf := staticCallee(cc); sf != nil && sf.Name() == "Write" && sf.Pkg != nil && sf.Pkg.Pkg.Path() == "bufio" {
+			writes = append(writes, in)
+		}
+	})
+	if len(writes) == 0 {
+		r.Unk(rule, key, fn, p.Pos(f.Pos()), inst, "no write into a bufio.Writer found")
+		return
+	}
+	idx := errResultIndex(f)
+	var bad []string
+	for _, w := range writes {
+		// stop at: arming the timer, or passing the pending-true edge
+		starts := []Point{after(w)}
+		seen := map[*ssa.BasicBlock]bool{}
+		var walk func(pt Point)
+		walk = func(pt Point) {
+			b := pt.B
+			if pt.I == 0 {
+				if seen[b] {
+					return
+				}
+				seen[b] = true
+			}
+			for i := pt.I; i < len(b.Instrs); i++ {
+				x := b.Instrs[i]
+				if isArm(x) {
+					return
+				}
+				if rt, ok := x.(*ssa.Return); ok {
+					if idx >= 0 && errKind(rt.Results[idx]) == "nil" {
+						bad = append(bad, p.Pos(rt.Pos()))
+					}
+					return
+				}
+			}
+			for i, s := range b.Succs {
+				skip := false
+				for _, e := range pendingTrue {
+					if e.From == b && e.Idx == i {
+						skip = true
+					}
+				}
+				if !skip {
+					walk(Point{s, 0})
+				}
+			}
+		}
+		for _, s := range starts {
+			walk(s)
+		}
+	}
+	if len(bad) > 0 {
+		r.Bad(rule, key, fn, p.Pos(f.Pos()), inst, "success is returned at "+strings.Join(uniq(bad), ", ")+" on a path that neither saw a pending flush nor armed the timer: what was copied into the buffer (a frame of exactly the buffer's size is copied, not passed through) stays there until another frame is sent over this link")
+	} else {
+		r.OK(rule, key, fn, p.Pos(f.Pos()), inst, fmt.Sprintf("%d buffered write(s); every successful return is behind 'pending' or timer.Reset", len(writes)))
+	}
+}
+
+// c12WriterGoesWithLink: R13 — a pool item pairs a TCP link with the writer that wraps it. Wherever
+// an item's link is (re)assigned, its writer is assigned in the same straight-line code to a new
+// flusher of that very link.
+func c12WriterGoesWithLink(p *load.Program, r *core.Report) {
+	rule := "C12.R13 pool-item-writer-wraps-its-link"
+	r.Floor(rule, 2)
+	seq := map[string]int{}
+	for _, f := range funcsOfPkgs(p, "net/proto") {
+		eachInstr(f, func(in ssa.Instruction) {
+			st, ok := in.(*ssa.Store)
+			if !ok {
+				return
+			}
+			own, fl := fieldOwner(st.Addr)
+			if own == nil || own.Obj().Name() != "pool_item" || fl != "connection" {
+				return
+			}
+			base, _, _ := fieldPath(st.Addr)
+			fn := fname(f)
+			seq[fn]++
+			key := fmt.Sprintf("C12.R13|%s|link#%d", fn, seq[fn])
+			inst := "the pool item's writer is renewed together with its link"
+			ok2 := false
+			for _, x := range in.Block().Instrs {
+				s2, isSt := x.(*ssa.Store)
+				if !isSt {
+					continue
+				}
+				o2, f2 := fieldOwner(s2.Addr)
+				b2, _, _ := fieldPath(s2.Addr)
+				if o2 != own || f2 != "fl" || canon(b2) != canon(base) {
+					continue
+				}
+				if c, isCall := s2.Val.(*ssa.Call); isCall {
+					if sf := staticCallee(c.Common()); sf != nil && strings.HasPrefix(sf.Name(), "NewFlusher") && len(c.Common().Args) > 0 {
+						unwrap := func(v ssa.Value) ssa.Value {
+							for i := 0; i < 4; i++ {
+								switch x := v.(type) {
+								case *ssa.MakeInterface:
+									v = x.X
+								case *ssa.ChangeInterface:
+									v = x.X
+								}
+							}
+							return canon(v)
+						}
+						if unwrap(c.Common().Args[0]) == unwrap(st.Val) {
+							ok2 = true
+						}
+					}
+				}
+			}
+			if ok2 {
+				r.OK(rule, key, fn, p.Pos(in.Pos()), inst, "fl = NewFlusher(the same link) next to it")
+			} else {
+				r.Bad(rule, key, fn, p.Pos(in.Pos()), inst, "the link is replaced but the writer still wraps the previous one: after a re-dial every frame routed to this pool item is written to a closed socket and lost, while the send reports success")
+			}
+		})
+	}
+}
